@@ -1,6 +1,7 @@
 package e5path
 
 import (
+	"golang.org/x/tools/go/packages"
 	"fmt"
 	"go/ast"
 	"go/constant"
@@ -622,6 +623,83 @@ func NormalisedBeforeCompare(p *load.Prog, r *oblig.Report, rule string, fn *ssa
 // fails: a return inside a loop must carry a non-nil error, and break is not allowed. An early
 // success return silently drops the remaining operands / restrictions.
 func CompleteIteration(p *load.Prog, r *oblig.Report, rule string, specs []string) {
+	completeIteration(p, r, rule, specs, false)
+}
+
+// CollectingLoopsComplete: the same rule restricted to the loops that collect (append to a list or write a map in
+// their body): such a loop left by break or by a return without an error silently drops the contributions of the
+// remaining elements. Loops that only search (find-first, exists) may stop early and are not judged.
+func CollectingLoopsComplete(p *load.Prog, r *oblig.Report, rule string, specs []string) {
+	completeIteration(p, r, rule, specs, true)
+}
+
+// CollectingLoopsCompleteIn applies CollectingLoopsComplete to every given function that has a declaration in the
+// named repository package (a universe rule: functions may come and go, the loops that exist are judged).
+func CollectingLoopsCompleteIn(p *load.Prog, r *oblig.Report, rule, pkg string, funcs []*ssa.Function) {
+	var specs []string
+	seen := map[string]bool{}
+	for _, f := range funcs {
+		fd, ok := f.Syntax().(*ast.FuncDecl)
+		if !ok || f.Pkg == nil || load.ShortPkg(f.Pkg.Pkg) != pkg || f.Parent() != nil {
+			continue
+		}
+		name := pkg + "." + load.DeclName(fd)
+		if !seen[name] {
+			seen[name] = true
+			specs = append(specs, name)
+		}
+	}
+	sort.Strings(specs)
+	n := len(r.Records)
+	completeIterationQuiet(p, r, rule, specs, true)
+	if len(r.Records) == n {
+		r.Unknown(rule, "complete-iteration:"+pkg, "-", "no collecting loop found in the reachable functions of package "+pkg+": anchors no longer resolve")
+	}
+}
+
+func collects(pk *packages.Package, body *ast.BlockStmt) bool {
+	found := false
+	ast.Inspect(body, func(n ast.Node) bool {
+		switch x := n.(type) {
+		case *ast.FuncLit:
+			return false
+		case *ast.AssignStmt:
+			for _, l := range x.Lhs {
+				if ix, ok := l.(*ast.IndexExpr); ok {
+					if tv, ok := pk.TypesInfo.Types[ix.X]; ok {
+						if _, isMap := tv.Type.Underlying().(*types.Map); isMap {
+							found = true
+						}
+					}
+				}
+			}
+			// a list kept in a variable grows (an append into a field of the element at hand is an update of that
+			// element, as in a find-and-update loop, and does not make the loop a collecting one)
+			for i, rh := range x.Rhs {
+				if call, ok := rh.(*ast.CallExpr); ok && i < len(x.Lhs) {
+					if id, ok := call.Fun.(*ast.Ident); ok && id.Name == "append" {
+						if _, isVar := x.Lhs[i].(*ast.Ident); isVar {
+							found = true
+						}
+					}
+				}
+			}
+		}
+		return true
+	})
+	return found
+}
+
+func completeIteration(p *load.Prog, r *oblig.Report, rule string, specs []string, collectingOnly bool) {
+	completeIterationX(p, r, rule, specs, collectingOnly, false)
+}
+
+// completeIterationQuiet: functions without a (collecting) loop are skipped instead of reported as lost anchors.
+func completeIterationQuiet(p *load.Prog, r *oblig.Report, rule string, specs []string, collectingOnly bool) {
+	completeIterationX(p, r, rule, specs, collectingOnly, true)
+}
+
+func completeIterationX(p *load.Prog, r *oblig.Report, rule string, specs []string, collectingOnly, quiet bool) {
 	for _, spec := range specs {
 		parts := strings.SplitN(spec, ".", 2)
 		fd, pk := p.FuncDecl(parts[0], parts[1])
@@ -635,7 +713,7 @@ func CompleteIteration(p *load.Prog, r *oblig.Report, rule string, specs []strin
 		// the loop may live in an unexported helper the function delegates to: consulted only when the
 		// function has no loop of its own
 		for hi, hd := range p.WithHelpers(pk, fd, 1) {
-			if hi > 0 && loops > 0 {
+			if hi > 0 && (loops > 0 || quiet) {
 				break
 			}
 			if hi == 1 {
@@ -661,12 +739,20 @@ func CompleteIteration(p *load.Prog, r *oblig.Report, rule string, specs []strin
 					case *ast.RangeStmt:
 						if tv, ok := pk.TypesInfo.Types[s.X]; ok {
 							if _, isSlice := tv.Type.Underlying().(*types.Slice); isSlice {
+								if collectingOnly && !collects(pk, s.Body) {
+									walk(s.Body, inLoop, false)
+									return false
+								}
 								loops++
 								walk(s.Body, true, false)
 								return false
 							}
 						}
 					case *ast.ForStmt:
+						if collectingOnly && !collects(pk, s.Body) {
+							walk(s.Body, inLoop, false)
+							return false
+						}
 						loops++
 						walk(s.Body, true, false)
 						return false
@@ -686,12 +772,12 @@ func CompleteIteration(p *load.Prog, r *oblig.Report, rule string, specs []strin
 						}
 						if !ok {
 							bad++
-							r.Bad(rule, construct, p.Pos(s.Pos()), "a loop over operands/restrictions is left by a return that does not report an error: the remaining elements are silently skipped")
+							r.Bad(rule, construct, p.Pos(s.Pos()), "a loop that translates or collects its elements is left by a return that does not report an error: the remaining elements are silently skipped")
 						}
 					case *ast.BranchStmt:
 						if inLoop && s.Tok == token.BREAK && !inSwitch {
 							bad++
-							r.Bad(rule, construct, p.Pos(s.Pos()), "a loop over operands/restrictions is left by break: the remaining elements are silently skipped")
+							r.Bad(rule, construct, p.Pos(s.Pos()), "a loop that translates or collects its elements is left by break: the remaining elements are silently skipped")
 						}
 					}
 					return true
@@ -700,7 +786,9 @@ func CompleteIteration(p *load.Prog, r *oblig.Report, rule string, specs []strin
 			walk(hd.Body, false, false)
 		}
 		if loops == 0 {
-			r.Unknown(rule, construct, p.Pos(fd.Pos()), "no loop found: anchor no longer resolves")
+			if !quiet {
+				r.Unknown(rule, construct, p.Pos(fd.Pos()), "no loop found: anchor no longer resolves")
+			}
 		} else if bad == 0 {
 			r.OK(rule, construct, p.Pos(fd.Pos()), "only-error-exits", fmt.Sprintf("%d loops", loops))
 		}
